@@ -132,10 +132,15 @@ class ServeManifest(RequestHandlerBase):
                 if pos != options.updateCount:
                     continue
             else:
-                tm = options.availabilityStartTime.replace(
+                mpd = context['mpd']
+                update_period = getattr(mpd, 'minimumUpdatePeriod', None)
+                if options.mode != 'live' or update_period is None:
+                    # a wall-clock position only has a meaning in a live stream
+                    continue
+                tm = mpd.availabilityStartTime.replace(
                     hour=pos.hour, minute=pos.minute, second=pos.second)
-                tm2 = tm + datetime.timedelta(seconds=options.minimumUpdatePeriod)
-                if context['mpd'].now < tm or context['mpd'].now > tm2:
+                tm2 = tm + datetime.timedelta(seconds=update_period)
+                if mpd.now < tm or mpd.now > tm2:
                     continue
             if (
                     code >= 500 and
